@@ -1164,50 +1164,42 @@ func (r *h2run) deliveredUnderGrantedWindows() {
 			}
 			return
 		}
-		// only if something is outstanding: wait until the connection has gone quiet (no frame for 25 ms, bounded)
-		pending := func() bool {
+		// a stream counts as stranded when the condition holds without interruption for the whole step bound: the relay
+		// has had all that time to send a frame it was allowed to send
+		stranded := func() []vstat.Failure {
+			var out []vstat.Failure
 			d.recv.mu.Lock()
 			defer d.recv.mu.Unlock()
 			for id, l := range d.s.logs {
-				a, _ := dataOf(l)
-				b, _ := dataOf(d.recv.recv[id])
-				if a > b {
-					return true
+				sentN, rst1 := dataOf(l)
+				gotN, rst2 := dataOf(d.recv.recv[id])
+				_, rst3 := dataOf(d.back.logs[id])
+				if rst1 || rst2 || rst3 || sentN <= gotN {
+					continue
+				}
+				availStream := d.recv.initLo + d.recv.grant[id] - d.recv.recvFlow[id]
+				availConn := 65535 + d.recv.grantConn - d.recv.recvConn
+				if availStream >= d.recv.maxFrameHi && availConn >= d.recv.maxFrameHi {
+					key := "C10:stranded:windows-permit"
+					if r.contPush && d.name == "B->A" {
+						key = keyPushCont // the known finding: a continued PUSH_PROMISE ends this direction
+					}
+					out = append(out, vstat.Failf(key, "direction %s stream %d: %d of %d DATA octets delivered and nothing more arrives within %v, although %s still has %d octets of stream window and %d of connection window (a frame holds at most %d)",
+						d.name, id, gotN, sentN, stepBound, d.recv.name, availStream, availConn, d.recv.maxFrameHi))
 				}
 			}
-			return false
+			return out
 		}
-		last, since := -1, time.Now()
-		for t0 := time.Now(); pending() && time.Since(t0) < stepBound; time.Sleep(2 * time.Millisecond) {
-			d.recv.mu.Lock()
-			n := d.recv.frames
-			d.recv.mu.Unlock()
-			if n != last {
-				last, since = n, time.Now()
-			} else if time.Since(since) > 25*time.Millisecond {
+		var last []vstat.Failure
+		for t0 := time.Now(); ; time.Sleep(3 * time.Millisecond) {
+			if last = stranded(); len(last) == 0 {
+				break
+			}
+			if time.Since(t0) > stepBound {
+				r.fails = append(r.fails, last...)
 				break
 			}
 		}
-		d.recv.mu.Lock()
-		for id, l := range d.s.logs {
-			sentN, rst1 := dataOf(l)
-			gotN, rst2 := dataOf(d.recv.recv[id])
-			_, rst3 := dataOf(d.back.logs[id])
-			if rst1 || rst2 || rst3 || sentN <= gotN {
-				continue
-			}
-			availStream := d.recv.initLo + d.recv.grant[id] - d.recv.recvFlow[id]
-			availConn := 65535 + d.recv.grantConn - d.recv.recvConn
-			if availStream >= d.recv.maxFrameHi && availConn >= d.recv.maxFrameHi {
-				key := "C10:stranded:windows-permit"
-				if r.contPush && d.name == "B->A" {
-					key = keyPushCont // the known finding: a continued PUSH_PROMISE ends this direction
-				}
-				r.fails = append(r.fails, vstat.Failf(key, "direction %s stream %d: %d of %d DATA octets delivered and nothing more arrives, although %s still has %d octets of stream window and %d of connection window (a frame holds at most %d)",
-					d.name, id, gotN, sentN, d.recv.name, availStream, availConn, d.recv.maxFrameHi))
-			}
-		}
-		d.recv.mu.Unlock()
 	}
 }
 
